@@ -24,7 +24,7 @@ def _single_path(fn, flat=False):
     import z3
     from .. import symreal as S, paths
     S.C.abs_mode = 'sqrt'
-    ex = paths.Exec(S.C.dom)
+    ex = paths.Exec(S.C.dom, timeout_ms=4000)
     orig_decide = ex.decide
 
     def decide(cond):
@@ -143,8 +143,13 @@ def section_nilpotent(rep, n, mutate=None, max_paths=400):
                 S.C.dom += [z3.Real('F%d%d' % (i, j)) >= -1, z3.Real('F%d%d' % (i, j)) <= 1]
             if j >= i:
                 S.C.dom += [z3.Real('Q%d%d' % (i, j)) >= -1, z3.Real('Q%d%d' % (i, j)) <= 1]
-    ex = paths.Exec(S.C.dom)
-    res, _ = ex.run(lambda: KF.compute_process_matrices(F.copy(), Q.copy(), dt), max_paths=max_paths, max_decisions=60)
+    import time as _t
+    ex = paths.Exec(S.C.dom, timeout_ms=4000)
+    res, todo_ = ex.run(lambda: KF.compute_process_matrices(F.copy(), Q.copy(), dt), max_paths=max_paths, max_decisions=60, deadline=_t.time() + 45)
+    if todo_:
+        # data-dependent branches on nonlinear quantities (none in the unmodified code): the explored
+        # paths are checked, the rest is reported as not explored - never as held
+        rep.run.error('finite steps, n=%d: path exploration stopped after 45 s with %d branch prefixes unexplored' % (n, len(todo_)))
     # exact reference: terminating series
     Fk = [S.symnp.eye(n)]
     for k in range(1, n):
@@ -211,8 +216,11 @@ def section_typed(rep, mutate=None):
         for i in range(n):
             for j in range(i, n):
                 S.C.dom += [z3.Real('Q%d%d' % (i, j)) >= -1, z3.Real('Q%d%d' % (i, j)) <= 1]
-        ex = paths.Exec(S.C.dom)
-        res, _ = ex.run(lambda: KF.compute_process_matrices(Fc.copy(), Q.copy(), dt), max_paths=50, max_decisions=60)
+        import time as _t
+        ex = paths.Exec(S.C.dom, timeout_ms=4000)
+        res, todo_ = ex.run(lambda: KF.compute_process_matrices(Fc.copy(), Q.copy(), dt), max_paths=50, max_decisions=60, deadline=_t.time() + 30)
+        if todo_:
+            rep.run.error('typed arguments (%s): path exploration stopped after 30 s with %d branch prefixes unexplored' % (label, len(todo_)))
         Ff = O([[J(int(Fc[i, j])) for j in range(n)] for i in range(n)])
         Fk = [S.symnp.eye(n)]
         for k in range(1, n):
